@@ -943,6 +943,76 @@ fn malformed_custom(rng: &mut Rng) -> Vec<u8> {
     v
 }
 
+/// Non-ASCII material for identifier positions of custom type strings: 2-, 3- and 4-byte alphanumerics
+/// (letters, decimal digits of other scripts, mathematical digits), non-alphanumerics, combining marks, spaces.
+const UNI: [&str; 16] = [
+    "\u{e9}", "\u{df}", "\u{ff21}", "\u{661}", "\u{1d7d8}", "\u{20ac}", "\u{301}", "\u{fc}", "\u{4e2d}", "\u{1d49c}", "\u{b2}", "\u{2003}",
+    "\u{a0}", "\u{e9}\u{e9}", "\u{37e}", "\u{10ffff}",
+];
+
+/// An identifier with a non-ASCII piece at an odd or even byte offset, with odd or even total byte length.
+fn uni_ident(rng: &mut Rng) -> String {
+    let pre: String = (0..rng.below(4)).map(|_| *rng.pick(b"0123456789abcdefAF") as char).collect();
+    let post: String = (0..rng.below(4)).map(|_| *rng.pick(b"0123456789abcdefAF") as char).collect();
+    let mid: &str = *rng.pick(&UNI);
+    let mut s = format!("{}{}{}", pre, mid, post);
+    if rng.chance(1, 4) {
+        let u: &str = *rng.pick(&UNI);
+        s.push_str(u);
+    }
+    s
+}
+
+const UNI_TEMPLATES: [&str; 18] = [
+    "UserType(ks,{},61:Int32Type)",
+    "UserType(ks,6e,{}:Int32Type)",
+    "UserType({},6e,61:Int32Type)",
+    "UserType(ks,6e,61:{})",
+    "UserType(ks,{})",
+    "UserType(ks,6e,61:Int32Type,{}:LongType)",
+    "org.apache.cassandra.db.marshal.UserType(ks , {} , {}:org.apache.cassandra.db.marshal.UTF8Type)",
+    "{}:Int32Type",
+    "{}",
+    "{}Type",
+    "Int32Type{}",
+    "ListType({})",
+    "ListType({}:Int32Type)",
+    "VectorType(Int32Type, {})",
+    "VectorType(Int32Type, 3{})",
+    "MapType({},Int32Type)",
+    "FrozenType(UserType(ks,{},{}:Int32Type))",
+    "TupleType(Int32Type,UserType(ks,6e,{}:LongType,{}:LongType))",
+];
+
+fn uni_custom(rng: &mut Rng) -> String {
+    let t = *rng.pick(&UNI_TEMPLATES);
+    let mut out = String::new();
+    for (i, part) in t.split("{}").enumerate() {
+        if i > 0 {
+            out.push_str(&uni_ident(rng));
+        }
+        out.push_str(part);
+    }
+    out
+}
+
+/// A Prepared frame whose single bind-marker column has the given binary type description.
+fn prepared_frame_with_type(ty: &[u8]) -> Vec<u8> {
+    let mut b = B::default();
+    b.int(4);
+    b.short_bytes(b"id");
+    b.int(0);
+    b.int(1);
+    b.int(0);
+    b.string(b"k");
+    b.string(b"t");
+    b.string(b"c");
+    b.raw(ty);
+    b.int(4); // result metadata: no metadata
+    b.int(0);
+    frame_bytes(0, 0, 0x08, &b.out)
+}
+
 pub fn generate(rng: &mut Rng, tier: Tier, emit: &mut dyn FnMut(String)) {
     let scale = if tier == Tier::Quick { 1 } else { 15 };
     let nofeat = Feats { rl: None, lwt: None, tab: false, mid: false };
@@ -1081,6 +1151,15 @@ pub fn generate(rng: &mut Rng, tier: Tier, emit: &mut dyn FnMut(String)) {
         "SetType(,,Int32Type)", "SetType( , Int32Type , )", "ListType(Int32Type))", "\u{00e9}Type", "ListType(\u{2003}Int32Type)", "Int32Type\u{00a0}",
     ] {
         emit(case_line(&nofeat, false, 'n', None, &rows_frame_with_type(&custom_type_bytes(s.as_bytes()))));
+    }
+
+    // non-ASCII characters in every identifier position of a custom type string (Rows and Prepared metadata):
+    // the model does not carry the Unicode classes (its line is an echo), the panic / hang / allocation oracle runs
+    for i in 0..2500 * scale {
+        let s = uni_custom(rng);
+        let ty = custom_type_bytes(s.as_bytes());
+        let frame = if i % 3 == 0 { prepared_frame_with_type(&ty) } else { rows_frame_with_type(&ty) };
+        emit(case_line(&nofeat, false, 'n', None, &frame));
     }
 
     // parameter-count mismatches nested k deep: the count is taken by re-parsing (known finding C08-H1: 2^k)
